@@ -134,9 +134,13 @@ def listElems (h : Store) (r : Nat) : List Slot :=
   | some o => o.fields.map fun p => p.2
   | none => []
 
-/-- `list.append`: write at index = current number of elements. -/
+/-- `list.append`: a new last field (index = current number of elements). Appending to an immutable
+or missing object, or a dangling reference, is rejected. -/
 def pushBack (h : Store) (r : Nat) (s : Slot) : Store :=
-  step h (.write r (listElems h r).length s)
+  match h[r]? with
+  | some o =>
+    if o.mu && slotValid h s then h.set r { o with fields := o.fields ++ [(o.fields.length, s)] } else h
+  | none => h
 
 /-- `for kv in elems: target.append(kv.copy())` (or `target.append(kv)` when `cp = false`). -/
 def appendCopies (tr : Nat → Nat → Treat) (n : Nat) (cp : Bool) :
